@@ -93,6 +93,7 @@ let derr_msg = function
   | E_no_nodes -> "201 No_nodes" | E_ih_short -> "203 info_hash_too_short"
   | E_no_peers_nodes -> "201 No_peers_nor_nodes" | E_token -> "203 Token_invalid."
   | E_unknown_query -> "204 Unknown_query_type." | E_port -> "203 Invalid_port."
+  | E_bad_t -> "203 Invalid_transaction_ID_type/length."
 
 let show_reply (s : state) (r : reply) : string =
   match r with
@@ -141,19 +142,38 @@ let show_res (k : string) (s : state) (r : res) : string =
   | Rpnodes (t, l) -> "t=" ^ hexbytes t ^ " n=" ^ centries l
   | Rdg r -> show_reply s r
 
+(* transaction layer ops:  Y,ip,t,id (reply)   E,ip,t (error)   S (server timeout pass)   Z (dump) *)
+let parse_sop (tok : string) : string * sop =
+  let f = Array.of_list (split_on ',' tok) in
+  match f.(0) with
+  | "Y" -> ("Y", SReply (n_of_string f.(1), opt_str f.(2), opt_str f.(3)))
+  | "E" -> ("E", SError (n_of_string f.(1), opt_str f.(2)))
+  | "S" -> ("S", STimeout)
+  | "Z" -> ("Z", STxDump)
+  | _ -> let (k, o) = parse_op tok in (k, SBase o)
+
+let txdump (ss : sstate) : string =
+  if ss.untracked then "x" else
+  let l = List.sort (fun a c -> compare (int_of_n a.x_ip) (int_of_n c.x_ip)) ss.txs in
+  "tx=" ^ String.concat "," (List.map (fun x ->
+    Printf.sprintf "%s/%s/%s/%s/%d" (sn x.x_ip) (sn x.x_tid) (hex_of_id x.x_id) (sn x.x_timeout) (if x.x_sent then 1 else 0)) l)
+  ^ " up=" ^ (if ss.netup then "1" else "0")
+
 let run_case (line : string) : string =
   match split_ws line with
   | "N" :: ownh :: c :: p :: t0 :: ops ->
-      let s = ref (init (id_of_hex ownh) (n_of_string c) (n_of_string p) (n_of_string t0)) in
+      let fl = (int_of_string c + 7 * int_of_string p) land 0x7fffffff in
+      let s = ref (sinit (id_of_hex ownh) (n_of_string c) (n_of_string p) (n_of_string t0) (n_of_int fl)) in
       let b = Buffer.create 4096 in
       (try
         List.iter (fun tok ->
-          let (k, o) = parse_op tok in
-          let (s', r) = step sha !s o in
-          if s'.err then raise Exit;
+          let (k, o) = parse_sop tok in
+          let (s', r) = sstep sha !s o in
+          if s'.rs.err then raise Exit;
           s := s';
-          Buffer.add_string b (Printf.sprintf "%s:%s#%08x | " k (show_res k s' r) (fnv32 (dump s')))) ops;
-        Buffer.add_string b ("END " ^ dump !s)
+          let shown = if k = "Z" then txdump s' else show_res k s'.rs r in
+          Buffer.add_string b (Printf.sprintf "%s:%s#%08x | " k shown (fnv32 (dump s'.rs)))) ops;
+        Buffer.add_string b ("END " ^ dump !s.rs)
       with Exit -> Buffer.add_string b "ERR:internal");
       Buffer.contents b
   | _ -> "BADCASE"
